@@ -221,6 +221,9 @@ Proof. intros H. cbn [unfold]. rewrite H. reflexivity. Qed.
 Lemma unfold_arr m f stack vs : unfold m (S f) stack (XArr vs) = XArr (map (unfold m f stack) vs).
 Proof. reflexivity. Qed.
 
+Lemma unfold_arr_struct m f stack n vs : unfold m (S f) stack (XStruct n vs) = XStruct n (map (unfold m f stack) vs).
+Proof. reflexivity. Qed.
+
 (* ---- slices, top level --------------------------------------------------------------------- *)
 
 Definition same_seq (y : xval) (vs : list gval) : Prop :=
@@ -301,6 +304,9 @@ Proof. destruct e; try discriminate; try reflexivity. destruct k; try discrimina
 Lemma Forall2_length' {A B} (R : A -> B -> Prop) l1 l2 : Forall2 R l1 l2 -> length l1 = length l2.
 Proof. induction 1; cbn; auto. Qed.
 
+Lemma zero_val_array te f n e : zero_val te (S f) (TArray n e) = XArr (repeat (zero_val te f e) n).
+Proof. reflexivity. Qed.
+
 Theorem roundtrip_array orc opts te e vs fuel st' w f :
   elem_type e = true ->
   forallb (has_type orc e) vs = true ->
@@ -318,18 +324,441 @@ Proof.
   pose proof (Forall2_length' _ _ _ Harms) as Hlw. pose proof (Forall2_length' _ _ _ Hsame) as Hlx.
   exists xs. split; [|exact Hsame]. rewrite <- Hlw.
   unfold dec_top.
-  change (zero_val te fuel_zero (TArray (length ws) e)) with (XArr (repeat (zero_val te 63 e) (length ws))).
+  unfold fuel_zero. rewrite zero_val_array. set (z := zero_val te 63 e).
   unfold st_alloc, dinit. cbn [mem refs clss length app].
   change (dec orc opts te (S (S f))) with (dec_step orc opts te (dec orc opts te (S f))).
   unfold dec_step at 1. rewrite (array_leaf _ e He).
   unfold dec_array. change (sw_lookup (model_switch RtArray) (tag_of (WList ws))) with (ACall FArrayList).
   cbv iota beta. unfold dec_array_list. rewrite Nat.min_id, firstn_all, Nat.ltb_irrefl.
   set (st0 := add_ref opts _ _ _).
-  assert (Hc : nth_error (mem st0) 0 = Some (XArr ([] ++ repeat (zero_val te 63 e) (length ws))))
+  assert (Hc : nth_error (mem st0) 0 = Some (XArr ([] ++ repeat z (length ws))))
     by (unfold st0, add_ref; destruct (o_simple opts); reflexivity).
   destruct (dec_elems_ok _ e ws xs Hdec [] _ st0 Hc ltac:(rewrite repeat_length; lia)) as (st' & Es & Hf).
   cbn [length] in Es. rewrite Es. cbn [bindd].
   unfold st_rd, rd. cbn [fst snd]. rewrite Hf. cbn [rd_path app].
   rewrite skipn_all2 by (rewrite repeat_length; lia). rewrite app_nil_r, unfold_arr.
   rewrite (map_unfold_plain _ f _ e _ xs Hdec). reflexivity.
+Qed.
+
+(* ---- maps ------------------------------------------------------------------------------------ *)
+
+Definition flat_pairs {A} (ps : list (A * A)) : list A := flat_map (fun p => [fst p; snd p]) ps.
+
+(* key types of Go maps among the scalar types (comparable, and hashable for the decoder) *)
+Definition key_type (t : gtype) : bool :=
+  match t with TBool | TInt _ | TF32 | TF64 | TC64 | TC128 | TString | TTime | TUuid => true | _ => false end.
+
+Definition kv_fold (acc : list (xval * xval)) (xps : list (xval * xval)) : list (xval * xval) :=
+  fold_left (fun a p => kv_set a (fst p) (snd p)) xps acc.
+
+Definition pair_typed (orc : bytes -> bytes -> option bytes) (k v : gtype) (p : gval * gval) : bool :=
+  has_type orc k (fst p) && has_type orc v (snd p).
+
+Lemma enc_seq_pairs orc te k v fuel : forall ps st st2 ws,
+  forallb (pair_typed orc k v) ps = true ->
+  enc_seq (enc true [] fuel) st (flat_pairs ps) = inl (Some (st2, ws)) ->
+  exists wps, ws = flat_pairs wps /\
+              Forall2 (fun wp p => arm_rt orc te k (fst wp) (fst p) /\ arm_rt orc te v (snd wp) (snd p)) wps ps.
+Proof.
+  induction ps as [|[a b] ps IH]; intros st st2 ws Hall He.
+  - cbn in He. inversion He; subst. exists []. split; [reflexivity|constructor].
+  - cbn [forallb] in Hall. apply andb_prop in Hall. destruct Hall as [Hp Hall].
+    unfold pair_typed in Hp. cbn [fst snd] in Hp. apply andb_prop in Hp. destruct Hp as [Ha Hb].
+    change (flat_pairs ((a, b) :: ps)) with (a :: b :: flat_pairs ps) in He. cbn [enc_seq] in He.
+    destruct (enc true [] fuel st a) as [st1 wa| |] eqn:E1; try discriminate.
+    pose proof (enc_simple_state orc k a fuel st st1 wa Ha E1) as Es. subst st1.
+    destruct (enc true [] fuel st b) as [st1 wb| |] eqn:E2; try discriminate.
+    pose proof (enc_simple_state orc v b fuel st st1 wb Hb E2) as Es. subst st1.
+    destruct (enc_seq (enc true [] fuel) st (flat_pairs ps)) as [[[st3 ws']|]|] eqn:E3; try discriminate.
+    inversion He; subst. destruct (IH st st2 ws' Hall E3) as (wps & Ew & Hf).
+    exists ((wa, wb) :: wps). split; [rewrite Ew; reflexivity|]. constructor; [|exact Hf]. cbn [fst snd]. split.
+    + apply (roundtrip_scalar_arm orc te true k a fuel st st wa); [intros s; reflexivity | exact Ha | exact E1].
+    + apply (roundtrip_scalar_arm orc te true v b fuel st st wb); [intros s; reflexivity | exact Hb | exact E2].
+Qed.
+
+Lemma key_hashable orc k a x : key_type k = true -> has_type orc k a = true -> same x a = true -> hashable x = true.
+Proof. destruct k; try discriminate; intros _; destruct a; try discriminate; intros _; destruct x; try discriminate; reflexivity. Qed.
+
+Definition pair_dec rec (k v : gtype) (wp : wire * wire) (xp : xval * xval) : Prop :=
+  elem_dec rec k (fst wp) (fst xp) /\ elem_dec rec v (snd wp) (snd xp) /\ hashable (fst xp) = true.
+
+Lemma pairs_of_arms orc opts te f k v wps ps :
+  key_type k = true -> forallb (pair_typed orc k v) ps = true ->
+  Forall2 (fun wp p => arm_rt orc te k (fst wp) (fst p) /\ arm_rt orc te v (snd wp) (snd p)) wps ps ->
+  exists xps, Forall2 (pair_dec (dec orc opts te (S f)) k v) wps xps /\
+              Forall2 (fun xp p => same (fst xp) (fst p) = true /\ same (snd xp) (snd p) = true) xps ps.
+Proof.
+  intros Hk Hall H. induction H as [|wp p wps ps [Ha Hb] _ IH]; [exists []; split; constructor|].
+  cbn [forallb] in Hall. apply andb_prop in Hall. destruct Hall as [Hp Hall]. apply andb_prop in Hp. destruct Hp as [Hta Htb].
+  destruct (IH Hall) as (xps & Hd & Hs).
+  destruct (arm_rt_elem_dec orc opts te f k _ _ Ha) as (xa & Hxa & Hsa).
+  destruct (arm_rt_elem_dec orc opts te f v _ _ Hb) as (xb & Hxb & Hsb).
+  exists ((xa, xb) :: xps). split; constructor; try assumption.
+  - split; [exact Hxa|]. split; [exact Hxb|]. cbn [fst]. apply (key_hashable orc k (fst p) xa Hk Hta Hsa).
+  - split; assumption.
+Qed.
+
+Lemma wrp_top_lt (st : dstate) h x : h < length (mem st) ->
+  exists st', wr_or_panic st (h, []) x = DOk st' /\ nth_error (mem st') h = Some x /\
+              (forall j, j <> h -> nth_error (mem st') j = nth_error (mem st) j) /\
+              length (mem st') = length (mem st).
+Proof.
+  intros H. destruct (nth_error (mem st) h) as [y|] eqn:E; [apply (wrp_top st h y x E)|].
+  apply nth_error_None in E. lia.
+Qed.
+
+(* cell 0: the map header; cell mc: the entries; cells kp, vp: the temporaries the entries are decoded into *)
+Definition minv (m : list xval) (mc kp vp : nat) (acc : list (xval * xval)) : Prop :=
+  nth_error m 0 = Some (XMapH mc) /\ nth_error m mc = Some (XMap acc) /\
+  kp < length m /\ vp < length m /\ mc <> 0 /\ kp <> 0 /\ vp <> 0 /\ kp <> mc /\ vp <> mc /\ kp <> vp.
+
+Lemma next_temp_key te t first m mc kp vp acc st : mem st = m -> minv m mc kp vp acc ->
+  exists sta kp', next_temp te t first kp st = (sta, kp') /\ minv (mem sta) mc kp' vp acc.
+Proof.
+  intros Hm (H0 & Hc & Hk & Hv & N1 & N2 & N3 & N4 & N5 & N6). unfold next_temp.
+  assert (Hmc : mc < length m) by (apply nth_error_Some; rewrite Hc; discriminate).
+  assert (H0l : 0 < length m) by (apply nth_error_Some; rewrite H0; discriminate).
+  destruct (negb first && needs_fresh t).
+  - unfold st_alloc. eexists. eexists. split; [reflexivity|]. cbn [mem]. rewrite Hm.
+    unfold minv. rewrite !nth_error_app1 by assumption. rewrite app_length. cbn [length].
+    repeat split; try assumption; lia.
+  - exists st, kp. split; [reflexivity|]. rewrite Hm. unfold minv. repeat split; assumption.
+Qed.
+
+Lemma next_temp_val te t first m mc kp vp acc st : mem st = m -> minv m mc kp vp acc ->
+  exists sta vp', next_temp te t first vp st = (sta, vp') /\ minv (mem sta) mc kp vp' acc.
+Proof.
+  intros Hm (H0 & Hc & Hk & Hv & N1 & N2 & N3 & N4 & N5 & N6). unfold next_temp.
+  assert (Hmc : mc < length m) by (apply nth_error_Some; rewrite Hc; discriminate).
+  assert (H0l : 0 < length m) by (apply nth_error_Some; rewrite H0; discriminate).
+  destruct (negb first && needs_fresh t).
+  - unfold st_alloc. eexists. eexists. split; [reflexivity|]. cbn [mem]. rewrite Hm.
+    unfold minv. rewrite !nth_error_app1 by assumption. rewrite app_length. cbn [length].
+    repeat split; try assumption; lia.
+  - exists st, vp. split; [reflexivity|]. rewrite Hm. unfold minv. repeat split; assumption.
+Qed.
+
+Lemma map_pairs_ok te rec k v wps xps : key_type k = true ->
+  Forall2 (pair_dec rec k v) wps xps ->
+  forall first mc kp vp acc st,
+  minv (mem st) mc kp vp acc ->
+  exists st' kp' vp',
+    map_pairs te rec k v mc kp vp first (flat_pairs wps) st = DOk st' /\
+    minv (mem st') mc kp' vp' (kv_fold acc xps).
+Proof.
+  intros Hkt. induction 1 as [|[kw vw] [kx vx] wps xps (Hdk & Hdv & Hh) Hall IH]; intros first mc kp vp acc st Hinv.
+  - exists st, kp, vp. split; [reflexivity|exact Hinv].
+  - change (flat_pairs ((kw, vw) :: wps)) with (kw :: vw :: flat_pairs wps). cbn [map_pairs]. cbn [fst snd] in Hdk, Hdv, Hh.
+    destruct (next_temp_key te k first _ mc kp vp acc st eq_refl Hinv) as (sta & kp1 & Ea & Ia). rewrite Ea.
+    destruct (next_temp_val te v first _ mc kp1 vp acc sta eq_refl Ia) as (stb & vp1 & Eb & Ib). rewrite Eb.
+    destruct Ib as (H0 & Hc & Hk & Hv & N1 & N2 & N3 & N4 & N5 & N6).
+    destruct Hdk as [Hpk Hdk]. destruct (Hdk (kp1, []) stb) as (s0 & Hm0 & Ed). rewrite Ed.
+    destruct (wrp_top_lt s0 kp1 kx ltac:(rewrite Hm0; exact Hk)) as (st1 & Ew & Hn1 & Ho1 & Hl1). rewrite Ew. cbn [bindd].
+    destruct Hdv as [Hpv Hdv]. destruct (Hdv (vp1, []) st1) as (s1 & Hm1 & Ed1). rewrite Ed1.
+    destruct (wrp_top_lt s1 vp1 vx ltac:(rewrite Hm1, Hl1, Hm0; exact Hv)) as (st2 & Ew2 & Hn2 & Ho2 & Hl2). rewrite Ew2. cbn [bindd].
+    unfold rd_or, st_rd, rd. cbn [fst snd].
+    rewrite (Ho2 kp1 N6), Hm1, Hn1. cbn [rd_path]. rewrite Hn2. cbn [rd_path].
+    replace (match k with TIface => negb (hashable_dyn te kx) | _ => false end) with false
+      by (destruct k; try discriminate; reflexivity).
+    unfold map_set. rewrite Hh.
+    assert (Hc2 : nth_error (mem st2) mc = Some (XMap acc)).
+    { rewrite (Ho2 mc (not_eq_sym N5)), Hm1, (Ho1 mc (not_eq_sym N4)), Hm0. exact Hc. }
+    rewrite Hc2.
+    destruct (wrp_top st2 mc _ (XMap (kv_set acc kx vx)) Hc2) as (st3 & Ew3 & Hn3 & Ho3 & Hl3). rewrite Ew3. cbn [bindd].
+    assert (I3 : minv (mem st3) mc kp1 vp1 (kv_set acc kx vx)).
+    { unfold minv. rewrite Hl3, Hl2, Hm1, Hl1, Hm0.
+      split; [rewrite (Ho3 0 (not_eq_sym N1)), (Ho2 0 (not_eq_sym N3)), Hm1, (Ho1 0 (not_eq_sym N2)), Hm0; exact H0|].
+      split; [exact Hn3|]. repeat split; assumption. }
+    destruct (IH false mc kp1 vp1 _ st3 I3) as (st' & kp' & vp' & Es & I').
+    exists st', kp', vp'. split; [exact Es|exact I'].
+Qed.
+
+Lemma unfold_map m f stack c kvs : nth_error m c = Some (XMap kvs) ->
+  unfold m (S f) stack (XMapH c) = XMap (map (fun kv => (unfold m f stack (fst kv), unfold m f stack (snd kv))) kvs).
+Proof. intros H. cbn [unfold]. rewrite H. reflexivity. Qed.
+
+Definition plain_pair (kv : xval * xval) : Prop := plain (fst kv) = true /\ plain (snd kv) = true.
+
+Lemma kv_set_plain acc k v : Forall plain_pair acc -> plain_pair (k, v) -> Forall plain_pair (kv_set acc k v).
+Proof.
+  intros Ha Hp. induction acc as [|[k' v'] acc IH]; cbn [kv_set]; [constructor; [exact Hp|constructor]|].
+  inversion Ha; subst. destruct (key_eqb k k'); constructor; auto.
+Qed.
+
+Lemma kv_fold_plain rec k v wps xps : Forall2 (pair_dec rec k v) wps xps ->
+  forall acc, Forall plain_pair acc -> Forall plain_pair (kv_fold acc xps).
+Proof.
+  induction 1 as [|wp [kx vx] wps xps ([Hpk _] & [Hpv _] & _) _ IH]; intros acc Ha; [exact Ha|].
+  unfold kv_fold. cbn [fold_left fst snd]. apply IH. apply kv_set_plain; [exact Ha|]. split; assumption.
+Qed.
+
+Lemma map_unfold_plain_pairs m f kvs : Forall plain_pair kvs ->
+  map (fun kv => (unfold m (S f) [] (fst kv), unfold m (S f) [] (snd kv))) kvs = kvs.
+Proof.
+  induction 1 as [|[a b] kvs [Ha Hb] _ IH]; [reflexivity|]. cbn [map fst snd] in *.
+  rewrite IH, (unfold_plain m f [] a Ha), (unfold_plain m f [] b Hb). reflexivity.
+Qed.
+
+Theorem roundtrip_map orc opts te k v ps fuel st' w f :
+  key_type k = true ->
+  forallb (pair_typed orc k v) ps = true ->
+  enc true [] fuel einit (GMap (flat_pairs ps)) = EOk st' w ->
+  exists xps, dec_top orc opts te (S (S f)) (TMap k v) w = OOk (XMap (kv_fold [] xps)) /\
+              Forall2 (fun xp p => same (fst xp) (fst p) = true /\ same (snd xp) (snd p) = true) xps ps.
+Proof.
+  intros Hk Hall Henc. destruct fuel as [|fuel]; [discriminate|]. rewrite enc_scalar_step in Henc.
+  cbn [enc_step enc_body register add_count] in Henc.
+  destruct (enc_seq (enc true [] fuel) einit (flat_pairs ps)) as [[[st2 ws]|]|] eqn:Eseq; try discriminate;
+    [|exfalso; apply (enc_seq_inr_not_ok _ _ _ _ Eseq _ _ Henc)].
+  inversion Henc; subst st' w. clear Henc.
+  destruct (enc_seq_pairs orc te k v fuel ps einit st2 ws Hall Eseq) as (wps & Ews & Harms). subst ws.
+  destruct (pairs_of_arms orc opts te f k v wps ps Hk Hall Harms) as (xps & Hdec & Hsame).
+  exists xps. split; [|exact Hsame].
+  unfold dec_top. change (zero_val te fuel_zero (TMap k v)) with XNil. unfold st_alloc at 1, dinit. cbn [mem refs clss length app].
+  change (dec orc opts te (S (S f))) with (dec_step orc opts te (dec orc opts te (S f))).
+  unfold dec_step at 1. change (leaf_of RTop (TMap k v)) with (LMap k v). cbv iota beta.
+  unfold dec_map. change (sw_lookup (model_switch RtMap) (tag_of (WMap (flat_pairs wps)))) with (ACall FMap).
+  cbv iota beta. unfold new_map, st_alloc. cbn [mem refs clss length app fst snd].
+  set (s0 := {| mem := [XNil; XMap []]; refs := []; clss := [] |}).
+  destruct (wrp_top s0 0 XNil (XMapH 1) eq_refl) as (s1 & Ew & Hn1 & Ho1 & Hl1). rewrite Ew.
+  set (s2 := add_ref opts s1 _ _).
+  assert (Hm2 : mem s2 = mem s1) by (unfold s2, add_ref; destruct (o_simple opts); reflexivity).
+  rewrite Hm2, Hl1. cbn [mem s0 length].
+  set (s4 := {| mem := (mem s1 ++ [zero_of te k]) ++ [zero_of te v]; refs := refs s2; clss := clss s2 |}).
+  assert (Hlen : length (mem s1) = 2) by (rewrite Hl1; reflexivity).
+  replace (length (mem s1 ++ [zero_of te k])) with 3 by (rewrite app_length, Hlen; reflexivity).
+  assert (Hinv : minv (mem s4) 1 2 3 []).
+  { unfold s4. cbn [mem]. unfold minv. rewrite !app_length, Hlen. cbn [length Nat.add].
+    rewrite <- app_assoc. rewrite !nth_error_app1 by lia. rewrite Hn1, (Ho1 1 ltac:(discriminate)).
+    repeat split; try lia; try discriminate. }
+  destruct (map_pairs_ok te _ k v wps xps Hk Hdec true 1 2 3 [] s4 Hinv) as (st' & kp' & vp' & Es & (H0 & Hc & _)).
+  rewrite Es. unfold st_rd, rd. cbn [fst snd]. rewrite H0. cbn [rd_path].
+  rewrite (unfold_map _ _ _ _ _ Hc).
+  rewrite (map_unfold_plain_pairs _ f _ (kv_fold_plain _ k v wps xps Hdec [] (Forall_nil _))). reflexivity.
+Qed.
+
+(* keys that are pairwise different (as Go compares them) come back in the written order, one entry each *)
+Fixpoint distinct_keys (l : list (xval * xval)) : bool :=
+  match l with
+  | [] => true
+  | p :: r => forallb (fun q => negb (key_eqb (fst q) (fst p))) r && distinct_keys r
+  end.
+
+Lemma kv_set_new acc k v : forallb (fun a => negb (key_eqb k (fst a))) acc = true -> kv_set acc k v = acc ++ [(k, v)].
+Proof.
+  induction acc as [|[k' v'] acc IH]; intros H; cbn [kv_set]; [reflexivity|].
+  cbn [forallb fst] in H. apply andb_prop in H. destruct H as [H1 H2].
+  destruct (key_eqb k k'); [discriminate|]. rewrite (IH H2). reflexivity.
+Qed.
+
+Lemma distinct_keys_app acc p r : distinct_keys (acc ++ p :: r) = true ->
+  forallb (fun a => negb (key_eqb (fst p) (fst a))) acc = true /\ distinct_keys ((acc ++ [p]) ++ r) = true.
+Proof.
+  intros H. split; [|rewrite <- app_assoc; exact H].
+  induction acc as [|a acc IH]; [reflexivity|]. cbn [app distinct_keys] in H. apply andb_prop in H. destruct H as [H1 H2].
+  cbn [forallb]. rewrite (IH H2), andb_true_r. rewrite forallb_app in H1. apply andb_prop in H1. destruct H1 as [_ H1].
+  cbn [forallb] in H1. apply andb_prop in H1. destruct H1 as [H1 _]. exact H1.
+Qed.
+
+Lemma kv_fold_distinct xps : forall acc, distinct_keys (acc ++ xps) = true -> kv_fold acc xps = acc ++ xps.
+Proof.
+  induction xps as [|[k v] xps IH]; intros acc H; [cbn; rewrite app_nil_r; reflexivity|].
+  destruct (distinct_keys_app acc (k, v) xps H) as [Hn Hd]. unfold kv_fold. cbn [fold_left fst snd].
+  rewrite (kv_set_new acc k v Hn). fold (kv_fold (acc ++ [(k, v)]) xps). rewrite (IH _ Hd), <- app_assoc. reflexivity.
+Qed.
+
+(* ---- structs --------------------------------------------------------------------------------- *)
+
+(* writing one field of a struct cell *)
+Lemma wrp_field (st : dstate) c n a y b x : nth_error (mem st) c = Some (XStruct n (a ++ y :: b)) ->
+  exists st', wr_or_panic st (c, [length a]) x = DOk st' /\ nth_error (mem st') c = Some (XStruct n (a ++ x :: b)) /\
+              (forall j, j <> c -> nth_error (mem st') j = nth_error (mem st) j) /\
+              length (mem st') = length (mem st).
+Proof.
+  intros H. destruct (upd_nth_spec (mem st) c _ (XStruct n (a ++ x :: b)) H) as (m' & E & Hn & Ho & Hl).
+  unfold wr_or_panic, st_wr, wr. cbn [fst snd]. rewrite H. cbn [wr_path]. rewrite nth_error_mid, upd_nth_mid, E.
+  eexists. split; [reflexivity|]. cbn [mem]. auto.
+Qed.
+
+(* field aliases pairwise different *)
+Fixpoint distinct_aliases (l : list bytes) : bool :=
+  match l with
+  | [] => true
+  | a :: r => forallb (fun b => negb (bytes_eqb a b)) r && distinct_aliases r
+  end.
+
+Lemma find_field_mid pre a t suf : forall i,
+  forallb (fun p => negb (bytes_eqb (fst p) a)) pre = true ->
+  find_field (pre ++ (a, t) :: suf) a i = Some (i + length pre, t).
+Proof.
+  induction pre as [|[a' t'] pre IH]; intros i H; cbn [app find_field].
+  - rewrite bytes_eqb_refl. cbn [length]. rewrite Nat.add_0_r. reflexivity.
+  - cbn [forallb fst] in H. apply andb_prop in H. destruct H as [H1 H2].
+    destruct (bytes_eqb a' a); [discriminate|]. rewrite (IH (S i) H2). cbn [length]. f_equal. f_equal. lia.
+Qed.
+
+Lemma distinct_aliases_mid pre a suf : distinct_aliases (pre ++ a :: suf) = true ->
+  forallb (fun p => negb (bytes_eqb p a)) pre = true.
+Proof.
+  induction pre as [|p pre IH]; intros H; [reflexivity|]. cbn [app distinct_aliases] in H.
+  apply andb_prop in H. destruct H as [H1 H2]. cbn [forallb]. rewrite (IH H2), andb_true_r.
+  rewrite forallb_app in H1. apply andb_prop in H1. destruct H1 as [_ H1]. cbn [forallb] in H1.
+  apply andb_prop in H1. destruct H1 as [H1 _]. exact H1.
+Qed.
+
+Fixpoint fields_typed (orc : bytes -> bytes -> option bytes) (d : sdef) (vs : list gval) : bool :=
+  match d, vs with
+  | [], [] => true
+  | at_ :: d', v :: vs' => has_type orc (snd at_) v && fields_typed orc d' vs'
+  | _, _ => false
+  end.
+
+Inductive fields_rt (orc : bytes -> bytes -> option bytes) (te : tenv) : sdef -> list wire -> list gval -> Prop :=
+| frt_nil : fields_rt orc te [] [] []
+| frt_cons at_ w v d ws vs : arm_rt orc te (snd at_) w v -> fields_rt orc te d ws vs ->
+                             fields_rt orc te (at_ :: d) (w :: ws) (v :: vs).
+
+Inductive fields_dec (rec : route -> gtype -> wire -> place -> dstate -> dres) : sdef -> list wire -> list xval -> Prop :=
+| fd_nil : fields_dec rec [] [] []
+| fd_cons at_ w x d ws xs : elem_dec rec (snd at_) w x -> fields_dec rec d ws xs ->
+                            fields_dec rec (at_ :: d) (w :: ws) (x :: xs).
+
+Lemma enc_seq_fields orc te fuel : forall d vs st st2 ws,
+  fields_typed orc d vs = true ->
+  enc_seq (enc true [] fuel) st vs = inl (Some (st2, ws)) ->
+  fields_rt orc te d ws vs.
+Proof.
+  induction d as [|at_ d IH]; intros vs st st2 ws Hall He; destruct vs as [|v vs]; try discriminate.
+  - cbn in He. inversion He; subst. constructor.
+  - cbn [fields_typed] in Hall. apply andb_prop in Hall. destruct Hall as [Hv Hall]. cbn [enc_seq] in He.
+    destruct (enc true [] fuel st v) as [st1 w| |] eqn:E1; try discriminate.
+    pose proof (enc_simple_state orc _ v fuel st st1 w Hv E1) as Es. subst st1.
+    destruct (enc_seq (enc true [] fuel) st vs) as [[[st3 ws']|]|] eqn:E2; try discriminate.
+    inversion He; subst. constructor.
+    + apply (roundtrip_scalar_arm orc te true _ v fuel st st w); [intros s; reflexivity | exact Hv | exact E1].
+    + eapply IH; eassumption.
+Qed.
+
+Lemma fields_of_arms orc opts te f d ws vs : fields_rt orc te d ws vs ->
+  exists xs, fields_dec (dec orc opts te (S f)) d ws xs /\ Forall2 (fun x v => same x v = true) xs vs.
+Proof.
+  induction 1 as [|at_ w v d ws vs H _ IH]; [exists []; split; constructor|].
+  destruct IH as (xs & Hd & Hs). destruct (arm_rt_elem_dec orc opts te f _ w v H) as (x & Hx & Hsx).
+  exists (x :: xs). split; constructor; assumption.
+Qed.
+
+Lemma fields_dec_plain m f rec d ws xs : fields_dec rec d ws xs -> map (unfold m (S f) []) xs = xs.
+Proof.
+  induction 1 as [|at_ w x d ws xs [Hp _] _ IH]; [reflexivity|]. cbn [map]. rewrite IH, (unfold_plain m f [] x Hp). reflexivity.
+Qed.
+
+Lemma fields_dec_length rec d ws xs : fields_dec rec d ws xs -> length d = length xs.
+Proof. induction 1; cbn; auto. Qed.
+
+Lemma decode_fields_ok rec name d0 : forall suf ws xs, fields_dec rec suf ws xs ->
+  forall pre done rest st,
+  d0 = pre ++ suf -> distinct_aliases (map fst d0) = true -> length done = length pre ->
+  nth_error (mem st) 0 = Some (XStruct name (done ++ rest)) -> length suf <= length rest ->
+  exists st', decode_fields rec d0 (0, []) (map fst suf) ws st = DOk st' /\
+              nth_error (mem st') 0 = Some (XStruct name (done ++ xs ++ skipn (length suf) rest)).
+Proof.
+  induction 1 as [|[a t] w x suf ws xs Hx Hall IH]; intros pre done rest st Hd Hdist Hlen Hc Hlr.
+  - exists st. split; [reflexivity|]. exact Hc.
+  - destruct rest as [|y rest]; [cbn in Hlr; lia|]. cbn [length] in Hlr.
+    cbn [map fst decode_fields]. unfold decode_field.
+    assert (Hf : find_field d0 a 0 = Some (length pre, t)).
+    { rewrite Hd. rewrite (find_field_mid pre a t suf 0); [reflexivity|].
+      rewrite Hd, map_app in Hdist. cbn [map fst] in Hdist.
+      pose proof (distinct_aliases_mid _ _ _ Hdist) as Hm. rewrite forallb_forall in Hm. apply forallb_forall.
+      intros p Hp. apply Hm. apply in_map. exact Hp. }
+    rewrite Hf. change (sub (0, []) (length pre)) with (0, [length pre]). rewrite <- Hlen.
+    destruct Hx as [Hpx Hdx]. cbn [snd] in Hdx. destruct (Hdx (0, [length done]) st) as (st0 & Hm0 & Ed). rewrite Ed.
+    assert (Hc0 : nth_error (mem st0) 0 = Some (XStruct name (done ++ y :: rest))) by (rewrite Hm0; exact Hc).
+    destruct (wrp_field st0 0 name done y rest x Hc0) as (st2 & Ew & Hn2 & _ & _). rewrite Ew. cbn [bindd].
+    assert (Hc2 : nth_error (mem st2) 0 = Some (XStruct name ((done ++ [x]) ++ rest))) by (rewrite <- app_assoc; exact Hn2).
+    destruct (IH (pre ++ [(a, t)]) (done ++ [x]) rest st2) as (st' & Es & Hfin).
+    + rewrite <- app_assoc. exact Hd.
+    + exact Hdist.
+    + rewrite !app_length, Hlen. reflexivity.
+    + exact Hc2.
+    + lia.
+    + exists st'. split; [exact Es|]. rewrite <- app_assoc in Hfin. exact Hfin.
+Qed.
+
+Lemma zero_val_struct te f name d : find_struct te name = Some d ->
+  zero_val te (S f) (TStruct name) = XStruct name (map (fun at_ => zero_val te f (snd at_)) d).
+Proof. intros H. cbn [zero_val]. rewrite H. reflexivity. Qed.
+
+Lemma push_class_mem opts st name fields t : mem (push_class opts st name fields t) = mem st.
+Proof.
+  unfold push_class, st_addclass. cbn [mem]. revert st. induction fields as [|a fields IH]; intros st; [reflexivity|].
+  cbn [fold_left]. rewrite IH. unfold add_ref. destruct (o_simple opts); reflexivity.
+Qed.
+
+Lemma push_class_clss opts st name fields t : clss st = [] ->
+  exists ci, clss (push_class opts st name fields t) = [ci] /\ c_names ci = fields.
+Proof.
+  intros H. unfold push_class, st_addclass. cbn [clss].
+  assert (Hc : forall st, clss (fold_left (fun s f => add_ref opts s TString (XStr f)) fields st) = clss st).
+  { induction fields as [|a fields IH]; intros st0; [reflexivity|]. cbn [fold_left]. rewrite IH.
+    unfold add_ref. destruct (o_simple opts); reflexivity. }
+  rewrite Hc, H. eexists. split; [reflexivity|reflexivity].
+Qed.
+
+Lemma dec_struct_class orc opts te f name d fields idx ws pl st : find_struct te name = Some d ->
+  dec orc opts te (S (S f)) RTop (TStruct name) (WClass name fields (WObj idx ws)) pl st =
+  class_info (push_class opts st name fields (TStruct name)) idx (fun ci =>
+    decode_fields (dec orc opts te f) d pl (c_names ci) ws
+      (add_ref opts (push_class opts st name fields (TStruct name)) (TPtr (TStruct name)) (XPtrTo (fst pl) (snd pl)))).
+Proof.
+  intros Hfs.
+  change (dec orc opts te (S (S f))) with (dec_step orc opts te (dec orc opts te (S f))).
+  unfold dec_step at 1. change (leaf_of RTop (TStruct name)) with (LStruct name). cbv iota beta.
+  unfold dec_struct at 1. rewrite Hfs.
+  change (sw_lookup (model_switch RtStruct) (tag_of (WClass name fields (WObj idx ws)))) with ADefault. cbv iota beta.
+  unfold default_decode.
+  change (sw_lookup (model_switch RtDefault) (tag_of (WClass name fields (WObj idx ws)))) with (ACall FClassThenDecode).
+  cbv iota beta.
+  change (dec orc opts te (S f)) with (dec_step orc opts te (dec orc opts te f)).
+  unfold dec_step at 1. change (leaf_of RTop (TStruct name)) with (LStruct name). cbv iota beta.
+  unfold dec_struct at 1. rewrite Hfs.
+  change (sw_lookup (model_switch RtStruct) (tag_of (WObj idx ws))) with (ACall FObject). cbv iota beta.
+  reflexivity.
+Qed.
+
+Theorem roundtrip_struct orc opts te name d vs fuel st' w f :
+  find_struct te name = Some d ->
+  distinct_aliases (map fst d) = true ->
+  fields_typed orc d vs = true ->
+  enc true [] fuel einit (GStruct name (map fst d) vs) = EOk st' w ->
+  exists xs, dec_top orc opts te (S (S (S f))) (TStruct name) w = OOk (XStruct name xs) /\
+             Forall2 (fun a v => same a v = true) xs vs.
+Proof.
+  intros Hfs Hdist Hall Henc. destruct fuel as [|fuel]; [discriminate|]. rewrite enc_scalar_step in Henc.
+  cbn [enc_step enc_body] in Henc.
+  change (class_lookup einit name) with (@None N) in Henc. unfold class_define in Henc.
+  cbn [register add_count] in Henc.
+  match type of Henc with context [enc_seq _ ?s vs] => set (st1 := s) in Henc end.
+  destruct (enc_seq (enc true [] fuel) st1 vs) as [[[st2 ws]|]|] eqn:Eseq; try discriminate;
+    [|exfalso; apply (enc_seq_inr_not_ok _ _ _ _ Eseq _ _ Henc)].
+  inversion Henc; subst st' w. clear Henc.
+  pose proof (enc_seq_fields orc te fuel d vs st1 st2 ws Hall Eseq) as Harms.
+  destruct (fields_of_arms orc opts te f d ws vs Harms) as (xs & Hdec & Hsame).
+  exists xs. split; [|exact Hsame].
+  unfold dec_top, fuel_zero. rewrite (zero_val_struct te _ name d Hfs).
+  set (zs := map _ d).
+  unfold st_alloc, dinit. cbn [mem refs clss length app].
+  rewrite (dec_struct_class orc opts te (S f) name d _ _ _ _ _ Hfs).
+  set (s0 := {| mem := [XStruct name zs]; refs := []; clss := [] |}).
+  destruct (push_class_clss opts s0 name (map fst d) (TStruct name) eq_refl) as (ci & Hci & Hnames).
+  unfold class_info. rewrite Hci. cbn [N.to_nat nth_error]. rewrite Hnames.
+  set (s1 := add_ref opts _ _ _).
+  assert (Hm1 : mem s1 = [XStruct name zs]).
+  { unfold s1, add_ref. destruct (o_simple opts); cbn [mem st_addref]; rewrite push_class_mem; reflexivity. }
+  assert (Hc : nth_error (mem s1) 0 = Some (XStruct name ([] ++ zs))) by (rewrite Hm1; reflexivity).
+  assert (Hlz : length d <= length zs) by (unfold zs; rewrite map_length; lia).
+  destruct (decode_fields_ok _ name d d ws xs Hdec [] [] zs s1 eq_refl Hdist eq_refl Hc Hlz) as (st' & Es & Hfin).
+  rewrite Es. unfold st_rd, rd. cbn [fst snd]. rewrite Hfin. cbn [rd_path app].
+  rewrite skipn_all2 by (unfold zs; rewrite map_length; lia). rewrite app_nil_r, unfold_arr_struct.
+  rewrite (fields_dec_plain _ (S f) _ d ws xs Hdec). reflexivity.
 Qed.
